@@ -331,8 +331,11 @@ def cycle_memo(ctx):
     u = ctx.unit('core._ArgValuator.mode')
     cfg = ctx.cfg(u)
     spec = u.params[2]
+    def is_memo(e, at):
+        e = deref(cfg, cfg.node_of(at), e)      # ``cache = self.cache`` read once into a local
+        return isinstance(e, ast.Attribute) and e.attr == 'cache'
     stores = [n for n in u.own_nodes() if isinstance(n, ast.Assign) and any(
-        isinstance(t, ast.Subscript) and isinstance(t.value, ast.Attribute) and t.value.attr == 'cache' for t in n.targets)]
+        isinstance(t, ast.Subscript) and is_memo(t.value, n) for t in n.targets)]
     ctx.require(len(stores) == 1, 'arg mode: memo store not found')
     st = stores[0]
     t = [t for t in st.targets if isinstance(t, ast.Subscript)][0]
